@@ -12,6 +12,7 @@ _ks.generate(core.REPO, core.LEAN / "Pun/Gen/KSGen.lean")
 hedge.generate(core.REPO, core.LEAN / "Pun/Gen/HedgeGen.lean")
 from pv.translator import grid as _grid
 _grid.generate(core.REPO, core.LEAN / "Pun/Gen/GridGen.lean")
+_grid.generate_levels(core.REPO, core.LEAN / "Pun/Gen/LevelsGen.lean")
 from pv.translator import trig as _trig
 _trig.generate(core.REPO, core.LEAN / "Pun/Gen/TrigGen.lean")
 from pv.translator import free as _free
